@@ -78,6 +78,32 @@ def script(seed):
     return sc, {"seed": seed, "unicast": unicast, "datagrams": [(t, p, list(d)) for t, p, d in events]}
 
 
+def l2d(rep, q):
+    """DiscoveryImpl: exhaustive refinement check, sensitivity, schedules for replay."""
+    from . import p_l2d as L
+    for name, over in (("two searches, 7 datagram kinds, all instants incl. exact ties", dict(MaxEnv=5 if q else 6)),):
+        res = L.model_check(over)
+        rep.add_tlc({"states": res["states"], "transitions": res["transitions"]})
+        rep.part("DiscoveryImpl model check: " + name, constants=over, states=res["states"], depth=res["depth"],
+                 complete=res["complete"], wall_s=res["wall"], invariants_violated=res["invariants_violated"], clause=res["clause"])
+        if res["error"]:
+            rep.machinery.append("TLC error in DiscoveryImpl: " + res["tail"][-600:])
+        for inv in res["invariants_violated"]:
+            clause = res["clause"] if inv == "ContractHolds" else inv
+            rep.violation(clause, f"DiscoveryImpl model violates {inv}", {"key": "L2D:" + clause, "clause": clause, "model": "DiscoveryImpl", "constants": over})
+    if not q:
+        res = L.model_check(dict(MaxEnv=5, F_SET="FALSE"))
+        got = "ContractHolds" in res["invariants_violated"]
+        rep.part("DiscoveryImpl sensitivity: F_SET=FALSE (duplicate filter keyed on the id) must violate ContractHolds",
+                 violated=res["invariants_violated"], clause=res["clause"], as_expected=got)
+        if not got:
+            rep.machinery.append("DiscoveryImpl with F_SET=FALSE does not violate the contract: the model does not exercise the property")
+    scripts, gen, bad = L.simulate_scripts(600 if q else 12000, lib.seed() % 100000)
+    if bad:
+        rep.part("note", text="DiscoveryImpl simulation reported a violation in the MODEL", tail=bad[0][-600:])
+    return [(f"l2d-{i}", L.to_harness(s), {"l2": s}) for i, s in enumerate(scripts)]
+
+
 def check_c18(rep):
     q = rep.tier == "quick"
     rng = random.Random(lib.seed() + 18)
@@ -89,6 +115,11 @@ def check_c18(rep):
         sid = f"c18-{sd}"
         jobs.append((sid, "at4", "discover", None, sc))
         metas[sid] = (sc, meta)
+    l2 = l2d(rep, q)
+    for sid, sc, meta in l2:
+        jobs.append((sid, "at4", "discover", None, sc))
+        metas[sid] = (sc, meta)
+    rep.part("DiscoveryImpl schedules replayed into the real discover()", scripts=len(l2))
     res = lib.run_scripts(jobs)
     traces = []
     for sid, (tr, err) in res.items():
@@ -108,5 +139,5 @@ def check_c18(rep):
              "other generation) at instants around the three request times, broadcast and unicast", scripts=n)
     rep.sample({"kind": "discovery script", "script": jobs[0][4], "meta": metas[jobs[0][0]][1]})
     rep.assumptions += ["UDP is simulated: create_datagram_endpoint of the virtual loop and the socket module used by pyairtouch.comms.discovery are replaced by doubles",
-                        "datagram arrival instants avoid exact ties with the 0.5 s request instants",
+                        "an answer arriving at exactly the instant an interval ends, or before the first request, may or may not count for that interval (either order of two simultaneous events is accepted)",
                         "AT4 answers with more than three commas are not judged (the reverse-engineered format does not say whether the id may contain commas)"]
